@@ -571,7 +571,7 @@ def _mp_ok():
 
 def _run(task, areas, name):
     tier = task.get('tier', 'quick')
-    rep = Report(name, task, rule=RULE, bound=_bound(tier))
+    rep = Report(name, task, rule=RULE + ' Added: apply_except / apply_items_except with a task failing with a class that was NOT requested (alone and next to a requested one); zip stores read and written with workers under a StoreConfigMap whose per-label options differ from the default.', bound=_bound(tier))
     rep.assumptions.add('Executor.map yields results in submission order (CPython concurrent.futures); completion orders are driven by sleeps, not observed')
     fork = _mp_ok()
     if not fork:
